@@ -541,11 +541,9 @@ func (f *Frame) copyCall(c *ssa.CallCommon, args []Val, in ssa.Instruction) Val 
 // uninterpreted function of the arguments and the ensures clauses are instantiated at this call.
 func (g *Gen) applyPure(fn *ssa.Function, fc *FuncContract, args []Val, reach string) Val {
 	name := fullName(fn)
-	var rt types.Type = fn.Signature.Results()
-	if fn.Signature.Results().Len() == 1 {
-		rt = fn.Signature.Results().At(0).Type()
-	} else {
-		panic(specError{"pure contract on a function with several results: " + name})
+	nres := fn.Signature.Results().Len()
+	if nres == 0 {
+		panic(specError{"pure contract on a function without results: " + name})
 	}
 	uf := "uf!" + sanitize(name)
 	var sorts, as []string
@@ -553,9 +551,23 @@ func (g *Gen) applyPure(fn *ssa.Function, fc *FuncContract, args []Val, reach st
 		sorts = append(sorts, a.Sort)
 		as = append(as, a.S)
 	}
-	g.declFun(uf, sorts, g.sortOf(rt))
-	r := Val{S: app(uf, as...), Sort: g.sortOf(rt), GT: rt}
-	key := r.S
+	var results []Val
+	for k := 0; k < nres; k++ {
+		rt := fn.Signature.Results().At(k).Type()
+		un := uf
+		if nres > 1 {
+			un = fmt.Sprintf("%s!%d", uf, k)
+		}
+		g.declFun(un, sorts, g.sortOf(rt))
+		results = append(results, Val{S: app(un, as...), Sort: g.sortOf(rt), GT: rt})
+	}
+	var r Val
+	if nres == 1 {
+		r = results[0]
+	} else {
+		r = Val{Sort: "Tuple", GT: fn.Signature.Results(), Tuple: results}
+	}
+	key := results[0].S
 	if g.pureSeen[key] {
 		return r
 	}
@@ -570,16 +582,25 @@ func (g *Gen) applyPure(fn *ssa.Function, fc *FuncContract, args []Val, reach st
 	if fn.Pkg != nil {
 		pkg = fn.Pkg.Pkg
 	}
-	env := &Env{g: g, bind: bind, results: []Val{r}, pkg: pkg, symHeap: &symHeap{names: map[string]string{}}}
+	env := &Env{g: g, bind: bind, results: results, pkg: pkg, symHeap: &symHeap{names: map[string]string{}}}
+	defs := uf
+	if nres > 1 {
+		defs = ""
+		for k := 0; k < nres; k++ {
+			defs += fmt.Sprintf(" %s!%d", uf, k)
+		}
+	}
 	for _, c := range fc.Clauses {
 		if c.Kind == "ensures" {
-			g.assumeDef(uf, env.trBool(c.E))
+			g.assumeDef(defs, env.trBool(c.E))
 		}
 	}
 	if len(env.symHeap.keys) > 0 {
 		panic(specError{"pure contract reads the heap: " + name})
 	}
-	g.assumeDef(uf, g.typeInv(r, ""))
+	for _, rv := range results {
+		g.assumeDef(defs, g.typeInv(rv, ""))
+	}
 	if fc.Trusted {
 		g.Assumptions["trusted contract (assumed, body not verified): "+name+": "+clauseTexts(fc)] = true
 	}
